@@ -182,7 +182,35 @@ def r3(ctx):
     ctx.ob('C17.R3', fn, anchor[0], 'g_lastPollOrder' in rk and 'm_pollPriority' in rk and '+' in rk, 'anchor value', rk)
 
 
+def r4(ctx):
+    ctx.rule('C17.R4', 'the global poll order high-water mark (g_lastPollOrder, the virtual time new priorities are anchored at) '
+             'only grows: it is written only in MessageMap::getNextPoll, from the order of the selected message and under '
+             'the test that this order is larger; any other write (a reset) makes later anchored messages jump the queue',
+             minimum=1)
+    fb = ctx.fb
+    n = 0
+    for fn in fb.functions:
+        if not fn.relfile.startswith('src/lib/ebus/message.') or not fn.blocks:
+            continue
+        for nid, d, rhs, op, lhs in fn.assignments():
+            if not d or not d.endswith('g_lastPollOrder') or op == 'init':
+                continue
+            n += 1
+            ok = fn.name == 'ebusd::MessageMap::getNextPoll' and op == '=' and rhs is not None
+            why = 'written in %s' % fn.name
+            if ok:
+                rk = fn.key(rhs)
+                atoms = set((a[0], a[1]) for a in fn.atoms(nid))
+                grows = ('(%s < %s)' % (fn.key(lhs), rk), True) in atoms or ('(%s <= %s)' % (rk, fn.key(lhs)), False) in atoms
+                ok = rk.endswith('.m_pollOrder') and grows
+                why = 'assigned %s under %s' % (rk, sorted(a for a in atoms if 'g_lastPollOrder' in a[0]))
+            ctx.ob('C17.R4', fn, nid, ok, 'write of g_lastPollOrder in %s' % fn.name.split('::')[-1], why)
+    if n < 1:
+        raise AnalysisBroken('C17.R4: no write of g_lastPollOrder found')
+
+
 def run(ctx):
     r1(ctx)
     r2(ctx)
     r3(ctx)
+    r4(ctx)
